@@ -446,6 +446,8 @@ def decode_ops(res):
         else:
             args, kwargs = None, None
         ops.append({"op": name, "args": args, "kwargs": kwargs, "modes": modes})
+    if not (isinstance(fields.get("modes"), list) and fields["modes"] and fields["modes"][0] == "set"):
+        return ops, None, fields.get("len")
     modes = sorted(_num(m) for m in fields["modes"][1])
     return ops, modes, fields.get("len")
 
@@ -477,7 +479,7 @@ def compare_ops(got_ops, got_modes, got_len, want_ops, want_modes):
                     any(not _close(gk[k][0], wk[k]) for k in wk):
                 return "operation %d (%s): keyword arguments %s, inlining gives %s" % (
                     n, g["op"], [[k, v[0] if v[0] is not None else v[1]] for k, v in g["kwargs"]], w["kwargs"])
-    if [int(m) for m in got_modes] != want_modes:
+    if got_modes is None or [int(m) for m in got_modes] != want_modes:
         return "program.modes is %s, the union of used modes is %s" % (got_modes, want_modes)
     if got_len != len(want_ops):
         return "len(program) is %s, expected %d" % (got_len, len(want_ops))
